@@ -160,6 +160,11 @@ func blockTxs(seed int64, script int, h uint32, chainID uint64) []*types.Transac
 			txs = append(txs, ops)
 		}
 	}
+	if h%2 == 1 {
+		// every odd height commits cross-chain leaves, so the cross-state root of a replayed block
+		// is always part of what recovery must reproduce
+		txs = append(txs, []op{{opMerkle, fmt.Sprintf("m%d", rng.Intn(4)), fmt.Sprintf("leaf-%d", h)}, {opMerkle, "m0", fmt.Sprintf("leaf2-%d", h)}})
+	}
 	if shape != 0 || rng.Intn(2) == 0 {
 		txs = append(txs, []op{{opInc, "cnt", ""}})
 	}
@@ -413,6 +418,9 @@ func TestC12(t *testing.T) {
 			return
 		}
 		for h := uint32(1); h <= nBlocks; h++ {
+			if o := refs[script][h]; o != nil && o.CrossRoot != "" && strings.Trim(o.CrossRoot, "0") != "" && !strings.HasPrefix(o.CrossRoot, "ERR") {
+				r.Count("reference_heights_with_cross_chain_leaves", 1)
+			}
 			for _, site := range submitSites {
 				jobs = append(jobs, crashCase{Script: script, Site: site, Height: h, NBlocks: nBlocks})
 				if r.Quick() && h%2 == 0 && s == 0 {
@@ -450,6 +458,7 @@ func TestC12(t *testing.T) {
 		r.Require("crashed_at:"+s, 1)
 	}
 	r.Require("second_crash_hit", 1)
+	r.Require("reference_heights_with_cross_chain_leaves", int(nBlocks)/2)
 	r.Require("recovered_and_compared", len(jobs)/2)
 }
 
